@@ -645,8 +645,12 @@ var (
 	threads  []*thread
 	current  *thread
 	crashAt  = -1
+	faultAt  = -1
 	crashCnt = 0
+	hitAt    = ""
 )
+
+func HitAt() string { return hitAt }
 
 func Go(f func()) {
 	t := &thread{id: len(threads), wake: make(chan struct{}), parked: make(chan string)}
@@ -672,23 +676,30 @@ func Go(f func()) {
 	}()
 }
 
-// Yield is called by wrappers at every scheduling point (storage / Lightning call).
-func Yield(tag string) {
+// Yield is called by wrappers at every scheduling point (storage / Lightning call); it returns true when a
+// storage fault is to be injected at this point.
+func Yield(tag string) bool {
 	t := current
 	if t == nil {
-		return
+		return false
 	}
-	if crashAt >= 0 {
-		if crashCnt == crashAt {
-			crashCnt++
+	if crashAt >= 0 || faultAt >= 0 {
+		k := crashCnt
+		crashCnt++
+		if k == crashAt {
+			hitAt = tag
 			panic(crashNow{})
 		}
-		crashCnt++
-		return
+		if k == faultAt {
+			hitAt = tag
+			return true
+		}
+		return false
 	}
 	t.parked <- tag
 	<-t.wake
 	current = t
+	return false
 }
 
 func Join(preempt int) {
@@ -729,16 +740,16 @@ func Join(preempt int) {
 	current = nil
 }
 
-// CrashRun runs f and kills it (panic unwinding, in-memory state discarded by the harness) before
-// its k-th scheduling point, k read from the script; returns whether it crashed.
+// CrashRun runs f and kills it (panic unwinding; the harness discards the in-memory state) before its k-th
+// scheduling point, k read from the script; returns whether it crashed.
 func CrashRun(f func()) (crashed bool) {
 	k := Int("crashAt", -1, 1<<20)
-	crashAt, crashCnt = k, 0
+	hitAt = ""
+	crashAt, faultAt, crashCnt = k, -1, 0
 	if k < 0 {
 		crashAt = 1 << 30
 	}
-	self := &thread{id: 0}
-	current = self
+	current = &thread{id: 0}
 	defer func() {
 		current = nil
 		crashAt = -1
@@ -752,4 +763,18 @@ func CrashRun(f func()) (crashed bool) {
 	}()
 	f()
 	return false
+}
+
+// FaultRun runs f with a storage error injected at its k-th scheduling point (k from the script).
+func FaultRun(f func()) bool {
+	k := Int("faultAt", -1, 1<<20)
+	hitAt = ""
+	crashAt, faultAt, crashCnt = -1, k, 0
+	if k < 0 {
+		faultAt = 1 << 30
+	}
+	current = &thread{id: 0}
+	defer func() { current = nil; faultAt = -1 }()
+	f()
+	return hitAt != ""
 }
